@@ -36,6 +36,17 @@ RenderArgs(prog, i) ==
 RenderEmit(prog) == "emit" \o ToString(Len(prog)) \o "(" \o RenderArgs(prog, 1) \o ")"
 RenderBare(prog) == RenderNode(prog[1])
 
+(* "concat": the nodes, each rendered to a string, are joined by the string  *)
+(* concatenation operator: n1.toString() & '/' & n2.toString() & ...  The    *)
+(* operator is left-associative, so while evaluation v is parked in the gate *)
+(* of a right operand the enclosing nodes hold their left results.  Only     *)
+(* Integer-valued nodes (gate, env, custom function, pause) are used.        *)
+RECURSIVE RenderConcatFrom(_, _)
+RenderConcatFrom(prog, i) ==
+  IF i > Len(prog) THEN ""
+  ELSE (IF i > 1 THEN " & '/' & " ELSE "") \o RenderNode(prog[i]) \o ".toString()" \o RenderConcatFrom(prog, i + 1)
+RenderConcat(prog) == RenderConcatFrom(prog, 1)
+
 (* names the harness registers in every Compile call of a schedule/time/   *)
 (* stress program; they are scaffolding, not part of the modelled tables   *)
 Scaffold == {"gate", "pause"} \cup {"emit" \o ToString(n) : n \in 1..12}
@@ -72,46 +83,90 @@ ConcECall(v, call) == [v |-> v, eid |-> call.eid, r |-> call.r, opts |-> [k \in 
 (* by the harness from the item's own fields).                              *)
 HasOverride(opts) == \E k \in 1..Len(opts) : opts[k].o = "time"
 
+(* The instant an OverrideTime value denotes, as (epoch day, millisecond of  *)
+(* the day) in UTC - the same form the harness gives every observed         *)
+(* dateTime.  Days from the civil date by the usual era arithmetic.          *)
+DaysFromCivil(y0, m, d) ==
+  LET y   == IF m <= 2 THEN y0 - 1 ELSE y0
+      era == y \div 400
+      yoe == y - era * 400
+      mp  == IF m > 2 THEN m - 3 ELSE m + 9
+      doy == (153 * mp + 2) \div 5 + d - 1
+      doe == yoe * 365 + yoe \div 4 - yoe \div 100 + doy
+  IN era * 146097 + doe - 719468
+DayMs == 86400000
+InstOf(c, off) ==
+  LET days == DaysFromCivil(c.y, c.mo, c.d)
+      ms   == ((c.h * 60 + c.mi) * 60 + c.sec) * 1000 + c.ms - off * 60000
+  IN IF ms < 0 THEN [eday |-> days - 1, ems |-> ms + DayMs]
+     ELSE IF ms >= DayMs THEN [eday |-> days + 1, ems |-> ms - DayMs]
+     ELSE [eday |-> days, ems |-> ms]
+
 MatchFixed(o, it) ==
   CASE it.t = "int"   -> o.t = "i" /\ o.i = it.a
-    [] it.t = "now"   -> o.t = "dt" /\ ItemSame(o, DTItem(Cal(it.a), it.b))
-    [] it.t = "today" -> o.t = "date" /\ ItemSame(o, DateItem(Cal(it.a)))
-    [] it.t = "tod"   -> o.t = "time" /\ ItemSame(o, TimeItem(Cal(it.a)))
     [] it.t = "fn"    -> IF it.s = "custom" THEN o.t = "i" /\ o.i = Marker(it.a, it.b)
                          ELSE TRUE      \* a built-in: its behaviour is not C04's business
     [] it.t = "res"   -> o.t = "el" /\ o.v.t = "s" /\ o.v.cp = ResIdCp(it.a)
     [] OTHER -> FALSE
+
+(* the string a "concat" program yields for a model result of Integer items *)
+DigitsCp(n) == IF n < 10 THEN <<48 + n>>
+               ELSE IF n < 100 THEN <<48 + (n \div 10), 48 + (n % 10)>>
+               ELSE IF n < 1000 THEN <<48 + (n \div 100), 48 + ((n \div 10) % 10), 48 + (n % 10)>>
+               ELSE <<48 + (n \div 1000), 48 + ((n \div 100) % 10), 48 + ((n \div 10) % 10), 48 + (n % 10)>>
+IntOfModelItem(it) == IF it.t = "fn" THEN Marker(it.a, it.b) ELSE it.a
+RECURSIVE ConcatCp(_, _)
+ConcatCp(items, i) ==
+  IF i > Len(items) THEN <<>>
+  ELSE (IF i > 1 THEN <<47>> ELSE <<>>) \o DigitsCp(IntOfModelItem(items[i])) \o ConcatCp(items, i + 1)
+ConcatMatches(out, den) ==
+  IF den.k = "err" THEN out.k = "err"
+  ELSE out.k = "ok" /\ Len(out.items) = 1 /\ out.items[1].t = "s" /\ out.items[1].cp = ConcatCp(den.items, 1)
 
 (* positions of time items in a model result *)
 TimeIdx(items, f) == {i \in 1..Len(items) : items[i].t = f}
 
 LeInst(a, b) == a.eday < b.eday \/ (a.eday = b.eday /\ a.ems <= b.ems)
 
-(* Without OverrideTime: every now() of the evaluation is the same value, it *)
-(* lies between the start and the end of the call (bracket measured by the   *)
-(* calling goroutine itself), and today()/timeOfDay() are its date and time  *)
-(* parts.                                                                    *)
-FreeTimeOK(obsItems, modelItems, t0, t1) ==
+(* One instant per evaluation.  Every now() of the evaluation is the same    *)
+(* value and its instant lies in [lo, hi]: the bracket of the call, measured *)
+(* by the calling goroutine itself, when no OverrideTime is given; the       *)
+(* OverrideTime instant itself (lo = hi) when one is.  today() and           *)
+(* timeOfDay() are the date and the time of day of that same value.  The     *)
+(* offset now() is rendered in is not fixed here (the property speaks of the *)
+(* instant); that it does not depend on the process time zone is judged      *)
+(* across the four time-zone runs.  An evaluation without now() must, under  *)
+(* an override, show the date / time of day of the override value itself.    *)
+TimeOK(obsItems, modelItems, lo, hi, over) ==
   LET nows == TimeIdx(modelItems, "now")
   IN /\ \A i \in nows : /\ obsItems[i].t = "dt" /\ obsItems[i].p = 7 /\ obsItems[i].tz
-                        /\ LeInst(t0, obsItems[i]) /\ LeInst(obsItems[i], t1)
+                        /\ LeInst(lo, obsItems[i]) /\ LeInst(obsItems[i], hi)
      /\ \A i, j \in nows : ItemSame(obsItems[i], obsItems[j])
      /\ \A i \in TimeIdx(modelItems, "today") :
           /\ obsItems[i].t = "date" /\ obsItems[i].p = 3
           /\ \A j \in nows : obsItems[i].y = obsItems[j].y /\ obsItems[i].mo = obsItems[j].mo /\ obsItems[i].d = obsItems[j].d
+          /\ (nows = {} /\ over) => ItemSame(obsItems[i], DateItem(Cal(modelItems[i].a)))
      /\ \A i \in TimeIdx(modelItems, "tod") :
           /\ obsItems[i].t = "time"
           /\ \A j \in nows : /\ obsItems[i].h = obsItems[j].h /\ obsItems[i].mi = obsItems[j].mi
                              /\ obsItems[i].sec = obsItems[j].sec /\ obsItems[i].ms = obsItems[j].ms
+          /\ (nows = {} /\ over) => ItemSame(obsItems[i], TimeItem(Cal(modelItems[i].a)))
+
+(* the instant the model's time items carry (all of them the same one) *)
+ModelInstant(modelItems) ==
+  LET ts == {i \in 1..Len(modelItems) : IsTimeItem(modelItems[i])}
+  IN IF ts = {} THEN [eday |-> 0, ems |-> 0]
+     ELSE LET i == CHOOSE i \in ts : TRUE IN InstOf(Cal(modelItems[i].a), modelItems[i].b)
 
 (* Does an observed outcome agree with the denotation `den` (OkRes/ErrRes)  *)
-(* of an evaluation whose options are `opts`?                               *)
+(* of an evaluation whose options are `opts` and whose bracket is [t0, t1]? *)
 EvalMatches(out, den, opts, t0, t1) ==
   IF den.k = "err" THEN out.k = "err"
   ELSE /\ out.k = "ok" /\ Len(out.items) = Len(den.items)
-       /\ \A i \in 1..Len(den.items) :
-            (HasOverride(opts) \/ ~IsTimeItem(den.items[i])) => MatchFixed(out.items[i], den.items[i])
-       /\ HasOverride(opts) \/ FreeTimeOK(out.items, den.items, t0, t1)
+       /\ \A i \in 1..Len(den.items) : ~IsTimeItem(den.items[i]) => MatchFixed(out.items[i], den.items[i])
+       /\ IF HasOverride(opts)
+            THEN TimeOK(out.items, den.items, ModelInstant(den.items), ModelInstant(den.items), TRUE)
+            ELSE TimeOK(out.items, den.items, t0, t1, FALSE)
 
 (* a short classification of a mismatch, for signatures *)
 EvalDiff(out, den, opts, t0, t1) ==
